@@ -51,6 +51,8 @@ def run(ctx):
     ctx.do(rule_no_hidden_state, "C17.history-independence")
     from .pitfalls import rule_loops_not_cut_short
     ctx.do(rule_loops_not_cut_short, "C17.loops-complete")
+    from .pitfalls import rule_definite_assignment
+    ctx.do(rule_definite_assignment, "C17.definite-assignment")
 
 
 def rule_wrapper(ctx):
